@@ -8,7 +8,8 @@ from __future__ import annotations
 
 import numpy as np
 
-VIAS = ["ctor", "ctor", "ctor", "swap_warm", "swap_fresh", "swap2", "from_labels", "queried_before"]
+VIAS = ["ctor", "ctor", "ctor", "swap_warm", "swap_fresh", "swap2", "from_labels", "queried_before",
+        "sample_replacement", "sample_smoothing", "sample_single_pass", "sample_swap"]
 FLIP = {"pos": "neg", "neg": "pos"}
 _THR = ["tpr", "fnr", "tnr", "fpr", "topr", "tonr"]
 
@@ -48,6 +49,17 @@ def build(pos, neg, ep, en, sc, ec, via, seed=0):
         allv = np.concatenate([pos_a, neg_a]) if len(pos_a) + len(neg_a) else np.zeros(0)
         perm = np.random.default_rng(seed).permutation(len(allv))
         return Scores.from_labels(labels[perm], allv[perm], nb_easy_pos=ep, nb_easy_neg=en, score_class=sc, equal_class=ec)
+    if via.startswith("sample_") and len(pos) and len(neg):
+        # a bootstrap sample is a Scores object of its own (other content, but every property of Scores applies to it)
+        from score_analysis import BootstrapConfig
+
+        smoothing = via in ("sample_smoothing", "sample_swap")
+        pa, na = (np.asarray(pos, dtype=float), np.asarray(neg, dtype=float)) if smoothing else (pos, neg)  # smoothing: float scores only
+        src = Scores(pa, na, nb_easy_pos=ep, nb_easy_neg=en, score_class=sc, equal_class=ec)
+        np.random.seed(seed)
+        method = "single_pass" if via == "sample_single_pass" else "replacement"
+        b = src.bootstrap_sample(BootstrapConfig(sampling_method=method, smoothing=smoothing, stratified_sampling="by_label" if seed % 2 else None))
+        return b.swap() if via == "sample_swap" else b
     s = Scores(pos, neg, nb_easy_pos=ep, nb_easy_neg=en, score_class=sc, equal_class=ec)
     if via == "queried_before":
         _warm(s, seed)
